@@ -1076,8 +1076,6 @@ class ProxyLayer:
         e = ("MTrans", f) if transposed else f
         w = wrapname or rng.choice(self.WRAPS)
         has_diag = sq
-        has_prod = fname == "prod"
-        if proxy == "diag" and has_prod: return None                                   # C01-DIAGPROD
         x = self.wrap(w, e)
         if proxy == "subrange":
             a, b, c, d, cls = self.range2(R, C, diagonal_only=has_diag); self.count("range:" + cls)
